@@ -7,7 +7,7 @@ from typing import Dict, List, Optional, Set, Tuple
 
 from ..fold import Folder, Sym
 from ..model import AnchorError, Program, dotted, last_attr, norm, parent, walk_no_nested
-from ..report import Check
+from ..report import Check, guard
 from .common import calls_in, guards_of, need_locals, returns_of
 
 # language reference 3.3.8 "Emulating numeric types" and 3.3.1 rich comparisons
@@ -181,7 +181,7 @@ def r19_4(prog: Program, chk: Check) -> None:
 
 
 def run(prog: Program, chk: Check) -> None:
-    r19_1(prog, chk)
-    r19_2(prog, chk)
-    r19_3(prog, chk)
-    r19_4(prog, chk)
+    guard(chk, r19_1, prog, chk)
+    guard(chk, r19_2, prog, chk)
+    guard(chk, r19_3, prog, chk)
+    guard(chk, r19_4, prog, chk)
